@@ -27,6 +27,7 @@ type c20Opts struct {
 	peerClose  bool  // the client closes its stream after the last flush
 	localClose bool  // a second server-side thread closes the stream at any moment
 	closeInCB  bool  // OnData consumes and then closes the stream (first call)
+	lazyClient bool  // every flush of the client may land at any moment (one deviation per flush placed)
 }
 
 func c20Body(o c20Opts) func() {
@@ -76,12 +77,19 @@ func c20Body(o c20Opts) func() {
 		var all []byte
 		flushed := 0
 		var ths []*vrt.Thread
-		ths = append(ths, vrt.GoProc("client", 1, func() {
+		startClient := vrt.GoProc
+		if o.lazyClient {
+			startClient = vrt.GoLazy
+		}
+		ths = append(ths, startClient("client", 1, func() {
 			st, err := p.c.OpenStream()
 			if err != nil {
 				vrt.Failf("harness", "open: %v", err)
 			}
-			for _, n := range o.sizes {
+			for i, n := range o.sizes {
+				if o.lazyClient && i > 0 {
+					vrt.AnyMoment()
+				}
 				data := patBytes(1, len(all), n)
 				all = append(all, data...)
 				st.BufferWriter().WriteBytes(data)
@@ -142,6 +150,7 @@ func TestVerif_C20(t *testing.T) {
 		{Name: "two-local-close-anytime", Bound: 2, BoundT: 3, Body: c20Body(c20Opts{sizes: []int{5, 6}, localClose: true})},
 		{Name: "two-close-inside-ondata", Bound: 2, BoundT: 3, Body: c20Body(c20Opts{sizes: []int{5, 6}, closeInCB: true})},
 		{Name: "close-inside-ondata-with-bytes-left", Bound: 1, BoundT: 2, Body: c20Body(c20Opts{sizes: []int{8, 6}, chunk: 3, closeInCB: true})},
+		{Name: "three-shm-chunked-lazy-writer", Bound: 2, BoundT: 3, Body: c20Body(c20Opts{sizes: []int{4, 4, 4}, chunk: 3, lazyClient: true})},
 		{Name: "local-close-anytime-chunked", Bound: 1, BoundT: 2, Body: c20Body(c20Opts{sizes: []int{8, 6}, chunk: 3, localClose: true})},
 	})
 }
